@@ -10,24 +10,24 @@ sys.dont_write_bytecode = True
 NOT_APPLICABLE = {}
 
 TECHNIQUE = {
- "C01": "abstract interpretation of the glue functions (get_stub, get_updated_definition, from_callable_and_traced_types) with symbolic types: nothing observed is dropped; wiring clause only",
- "C02": "abstract interpretation of CallTracer.handle_return/handle_call/__call__ over every event point of a compiled (not executed) opcode corpus x tracer state: typestate of self.traces, exit-opcode table agreement; provenance (value origins on the CFG) for attribution by code identity",
- "C03": "interprocedural taint/effect analysis over the tracer's call graph with a CPython data-model catalogue (hookable operations on program values) and exact-type guard dominance; CFG path analysis of containment and restore/flush pairing incl. exception edges",
- "C04": "abstract interpretation of get_type/get_dict_type/shrink_types/shrink_typed_dict_types with symbolic elements over the full dispatch partition and all permutations of bounded multisets: coverage of every element and input, order independence",
- "C05": "same abstract inference tables: exact-class fall-through, constant-type provenance (Any/Callable/Type/str only in enumerated cells), witness of every result leaf, required/optional classification",
- "C06": "parameter-forwarding analysis (argument binding at every call site of max_typed_dict_size carriers) + abstract decision tables of get_dict_type / merging against the limit",
- "C07": "abstract interpretation of the shipped rewriters over ~1400 abstract unions (class hierarchy with multiple inheritance, exceptions as outcomes) checked by an independent subtype oracle and independently computed triggers",
+ "C01": "abstract interpretation of the glue functions (get_stub, get_updated_definition, from_callable_and_traced_types, trace/trace_calls with a symbolic configuration) with symbolic types: nothing observed is dropped; histories on one tracer object (no stale memo); plus the stage rules of C04/C02/C09 that a seeded change showed to be necessary conditions; membership itself is not decided",
+ "C02": "abstract interpretation of CallTracer.handle_return/handle_call/__call__ over every event point of a compiled (not executed) opcode corpus x tracer state: typestate of self.traces, exit-opcode table agreement; interprocedural provenance for attribution by code identity; event histories on one tracer object with model values (memo soundness)",
+ "C03": "interprocedural taint/effect analysis over the tracer's call graph with a CPython data-model catalogue (hookable operations on program values) and exact-type guards as edge cuts; CFG path analysis of containment and restore/flush pairing incl. exception edges; call-graph containment of everything on the exit path and of per-trace serialisation",
+ "C04": "abstract interpretation of get_type/get_dict_type/shrink_types/shrink_typed_dict_types with symbolic elements over the full dispatch partition and all permutations of bounded multisets; the same functions interpreted together on a grammar of small concrete values against a membership oracle; two-call histories; compat.types_equal decided by interpretation through the installed metaclass __eq__",
+ "C05": "abstract inference tables (exact-class fall-through, constant-type provenance, witness of every leaf, required/optional) + concrete small-value interpretation against a tightness oracle + histories (a remembered type is not witnessed)",
+ "C06": "parameter-forwarding analysis (argument binding / value origins at every call site of max_typed_dict_size carriers), abstract decision tables of get_dict_type / merging against the limit, who-may-create-a-TypedDict call-graph rule, concrete small-value interpretation against the limit oracle",
+ "C07": "abstract interpretation of the shipped rewriters over ~1400 abstract unions (class hierarchy with multiple inheritance, exceptions as outcomes) checked by an independent subtype oracle and independently computed triggers; chain interpreted with opaque members, also as a history (id-keyed memo); compat predicates decided by interpretation",
  "C08": "abstract interpretation and composition of encoder and decoder (type_to_json o type_from_json, from_trace o to_trace) over abstract types; table agreement of CREATE/INSERT/SELECT/constructor extracted from folded SQL",
- "C09": "embedded-SQL analysis: SQL text folded by abstract interpretation of make_query/add/list_modules, parsed, judged by a sqlite-semantics catalogue; effect-sequence analysis of add (one transaction) and of serialize_traces with failures at every position",
- "C10": "exception-escape analysis: abstract interpretation of CallTraceRow.to_trace in abstract worlds with one stale name; raised class must be a subclass (hierarchy from exceptions.py) of the class get_stub tolerates; decision table of get_stub over row-outcome sequences",
- "C11": "static translation validation: the stub pipeline is interpreted abstractly down to concrete text, which the checker parses and evaluates in the namespace the stub provides; str.replace sites blamed by idealisation",
+ "C09": "embedded-SQL analysis: SQL text folded by abstract interpretation of make_query/add/list_modules, parsed, judged by a sqlite-semantics catalogue; effect-sequence analysis of add (one transaction), of serialize_traces with failures at every position, and of fault-then-add histories on one store object",
+ "C10": "exception-escape analysis: abstract interpretation of CallTraceRow.to_trace in abstract worlds with one stale name (also as the second decode of a history, lru_cache honoured); raised class must be a subclass of the class get_stub tolerates; decision tables of get_stub, the handlers and main by interpretation; merge of rows with differing parameter names",
+ "C11": "static translation validation: the stub pipeline is interpreted abstractly down to concrete text, which the checker parses and evaluates in the namespace the stub provides; str.replace sites blamed by idealisation; table agreement between the generic kinds inference builds (enumerated from source) and the rewriter's handlers",
  "C12": "abstract rendering + ast.parse oracle: every parameter-kind sequence rendered (one line / wrapped) must parse back to the same parameters; descriptor -> kind -> decorator -> receiver tables; build_module_stubs interpreted",
  "C13": "complete decision tables of update_signature_args / update_signature_return / Optional wrap extracted by abstract interpretation over the full atom space; argparse flag table; strategy forwarding",
  "C14": "permutation invariance by abstract interpretation: traces->type sets, definitions->rendered text, rewriters over member orders; eq/hash field agreement; process-dependent-call scan",
- "C15": "effect-sequence analysis of apply_stub_handler by abstract interpretation (who writes what, when); argument binding against the installed libcst's signature read from its source",
- "C16": "complete decision table of RemoveImportsTransformer.leave_Import/leave_ImportFrom over statements x move lists; cross-module table agreement for runtime imports; abstract interpretation of _split_module and apply_stub_using_libcst",
- "C17": "abstract interpretation of CallTracer.__call__ over event x filter verdict, of the store logger over module names, of default_code_filter on synthetic names; structural dataflow rules for path resolution and library roots; forwarding analysis",
- "C18": "abstract interpretation of handle_call over every call-event point of the compiled corpus x rate x every draw x tracer state: 1-in-N gate, no residue, no trace at resumption, non-interference of the draw",
+ "C15": "effect-sequence analysis of apply_stub_handler and apply_stub_using_libcst by abstract interpretation (who writes what, when; which libcst transformations in which order); argument binding against the installed libcst's signature read from its source; plus the signature-shape and import rules of C12/C16 as necessary conditions",
+ "C16": "complete decision table of RemoveImportsTransformer.leave_Import/leave_ImportFrom over statements x move lists (incl. relative imports and the remover/gatherer package-knowledge agreement); cross-module table agreement for runtime imports; abstract interpretation of _split_module, _add_type_checking_import and apply_stub_using_libcst",
+ "C17": "abstract interpretation of CallTracer.__call__ over event x filter verdict, of the store logger over module names, and of default_code_filter in an abstract file-system world (symlinked roots, look-alike directories, synthetic names, allow-lists) against an oracle; forwarding by interpretation of trace()/trace_calls",
+ "C18": "abstract interpretation of handle_call (helpers of util.py inlined) over every call-event point of the compiled corpus x rate x every draw x tracer state: 1-in-N gate, independent draws (no RNG state save/restore), no residue, no trace at resumption, non-interference of the draw",
 }
 
 def main():
